@@ -35,6 +35,7 @@ type modelReply struct {
 type stats struct {
 	pops, popOK, popErr, filtered, stalePops, fired, syncs int
 	kind, class                                          string // of the failure, when runCase returns false
+	failure                                              *rig.Failure
 }
 
 // after a failure has been seen, waiting for quiescence is cut short (the tree is not the unchanged one)
@@ -92,8 +93,9 @@ func unhexAll(l []string) []string {
 func runCase(c *rig.Ctx, cs Case, record bool, st *stats) bool {
 	fail := func(kind, class, what string, impl, model interface{}) bool {
 		st.kind, st.class = kind, class
+		st.failure = &rig.Failure{Kind: kind, Class: class, What: what + " | history: " + readable(cs), Case: cs, Impl: impl, Model: model}
 		if record {
-			c.Fail(rig.Failure{Kind: kind, Class: class, What: what + " | history: " + readable(cs), Case: cs, Impl: impl, Model: model})
+			c.Fail(*st.failure)
 		}
 		return false
 	}
@@ -113,6 +115,15 @@ func runCase(c *rig.Ctx, cs Case, record bool, st *stats) bool {
 	// 2. the real code
 	if !lib.WaitNoHealthGoroutines(20 * time.Second) {
 		return fail("diff", "c03.leftover-goroutines", "health-check workers of a stopped cluster are still alive", nil, nil)
+	}
+	// the exported constructor on the first spec (the history itself uses the shim constructor: same code, one-hour ticker)
+	if len(cs.Ops) > 0 && cs.Ops[0].Op == "sync" {
+		if err := lib.CheckRealConstructor(cs.Ops[0].Servers, cs.Ops[0].Policies); err != nil {
+			return fail("diff", "c03.constructor", err.Error(), nil, nil)
+		}
+		if !lib.WaitNoHealthGoroutines(20 * time.Second) {
+			return fail("diff", "c03.leftover-goroutines", "health-check workers of a stopped cluster are still alive", nil, nil)
+		}
 	}
 	w := lib.NewWorld()
 	w.Timeout = quiesceTimeout
@@ -223,9 +234,10 @@ func runCase(c *rig.Ctx, cs Case, record bool, st *stats) bool {
 	}
 	if judgeFail != nil {
 		st.kind, st.class = "judge", judgeFail.Class
+		judgeFail.Case = cs
+		judgeFail.What += " | history: " + readable(cs)
+		st.failure = judgeFail
 		if record {
-			judgeFail.Case = cs
-			judgeFail.What += " | history: " + readable(cs)
 			c.Fail(*judgeFail)
 		}
 		return false
@@ -287,34 +299,52 @@ func shrink(c *rig.Ctx, cs Case, kind, class string) Case {
 	return cs
 }
 
+// runAny replays a recorded case of either stream.
+func runAny(c *rig.Ctx, raw json.RawMessage, st *stats) bool {
+	var probe struct {
+		Dispatch []json.RawMessage `json:"dispatch"`
+	}
+	if json.Unmarshal(raw, &probe) == nil && probe.Dispatch != nil {
+		var d DCase
+		json.Unmarshal(raw, &d)
+		return runDispatch(c, d, true, st)
+	}
+	var cs Case
+	json.Unmarshal(raw, &cs)
+	return runCase(c, cs, true, st)
+}
+
 func main() {
 	lib.SilenceKlog()
 	rig.Main("C03", func(c *rig.Ctx) {
+		if !lib.CalibrateWorkers() {
+			c.Note("health-check goroutines are not recognisable in this build's goroutine profile: the worker-count observation is off")
+		}
 		c.SetRule("a history of 6-40 ops on one real ClusterInfo over a universe of 2-6 endpoints: Sync (servers added/removed/disabled/re-enabled/duplicated/reordered/unchanged, 1-3 policies with subsets incl. stale and duplicate names), direct UpdateStatus, TriggerHealthCheck and EnsureGatewayHealthCheck under a scripted health table (probes run through the real health-check goroutines), MatchAttributes and Pop (possibly separated by Syncs); distinct = distinct canonical op list; non-trivial = at least one Pop whose upstream list contained an absent, disabled or unhealthy endpoint, or answered no-ready")
 		if c.Replay != "" {
-			var cs Case
-			if err := c.LoadReplay(&cs); err != nil {
+			var raw json.RawMessage
+			if err := c.LoadReplay(&raw); err != nil {
 				fmt.Fprintln(os.Stderr, err)
 				os.Exit(2)
 			}
 			var st stats
-			c.Case(rig.Canon(cs), true, "replay", func() interface{} { return readable(cs) })
+			c.Case(string(raw), true, "replay", nil)
 			c.Trace()
-			runCase(c, cs, true, &st)
+			runAny(c, raw, &st)
 			return
 		}
 		files, _ := filepath.Glob(filepath.Join(os.Getenv("VERIF_DIR"), "harness", "corpus", "C03", "*.json"))
 		sort.Strings(files)
 		for _, f := range files {
 			b, _ := os.ReadFile(f)
-			var env struct{ Case *Case }
+			var env struct{ Case json.RawMessage }
 			if json.Unmarshal(b, &env) != nil || env.Case == nil {
 				continue
 			}
 			var st stats
-			c.Case(rig.Canon(*env.Case), true, "corpus", nil)
+			c.Case(string(env.Case), true, "corpus", nil)
 			c.Trace()
-			runCase(c, *env.Case, true, &st)
+			runAny(c, env.Case, &st)
 		}
 		n := c.Budget(400, 20000)
 		var total stats
@@ -342,15 +372,60 @@ func main() {
 				if deadline.IsZero() {
 					deadline = time.Now().Add(map[bool]time.Duration{false: 40 * time.Second, true: 5 * time.Minute}[c.Thorough()])
 				}
-				if st.kind == "judge" {
-					judged = true
-					runCase(c, shrink(c, cs, st.kind, st.class), true, &st)
-				} else if diffs < 2 {
-					diffs++
-					runCase(c, shrink(c, cs, st.kind, st.class), true, &st)
+				if st.kind == "judge" || diffs < 2 {
+					judged = st.kind == "judge"
+					if !judged {
+						diffs++
+					}
+					// record the minimised history if it reproduces the same failure, the original observation otherwise
+					var again stats
+					if small := shrink(c, cs, st.kind, st.class); !runCase(c, small, false, &again) && again.kind == st.kind && again.class == st.class {
+						c.Fail(*again.failure)
+					} else {
+						c.Fail(*st.failure)
+					}
 				}
 			}
 		}
+		// end-to-end stream: whole requests through the real dispatcher to stub upstreams
+		nd := c.Budget(60, 1500)
+		var e2e stats
+		for i := 0; i < nd && !judged; i++ {
+			if !deadline.IsZero() && time.Now().After(deadline) {
+				break
+			}
+			cs := genDispatch(c)
+			var st stats
+			ok := runDispatch(c, cs, false, &st)
+			c.Case(rig.Canon(cs), st.pops > 0, fmt.Sprintf("e2e,requests=%d,503=%d", min(st.pops, 5), min(st.popErr, 3)), func() interface{} { return readableD(cs) })
+			c.Trace()
+			e2e.pops += st.pops
+			e2e.popOK += st.popOK
+			e2e.popErr += st.popErr
+			e2e.fired += st.fired
+			if !ok {
+				quiesceTimeout = 2 * time.Second
+				if deadline.IsZero() {
+					deadline = time.Now().Add(map[bool]time.Duration{false: 40 * time.Second, true: 5 * time.Minute}[c.Thorough()])
+				}
+				if st.kind == "judge" || diffs < 2 {
+					judged = st.kind == "judge"
+					if !judged {
+						diffs++
+					}
+					var again stats
+					if small := shrinkDispatch(c, cs, st.kind, st.class); !runDispatch(c, small, false, &again) && again.kind == st.kind && again.class == st.class {
+						c.Fail(*again.failure)
+					} else {
+						c.Fail(*st.failure)
+					}
+				}
+			}
+		}
+		c.SetExtra("e2e_requests", e2e.pops)
+		c.SetExtra("e2e_forwarded", e2e.popOK)
+		c.SetExtra("e2e_503", e2e.popErr)
+		c.SetExtra("e2e_healthz_probes", e2e.fired)
 		c.SetExtra("pops", total.pops)
 		c.SetExtra("pops_ok", total.popOK)
 		c.SetExtra("pops_no_ready", total.popErr)
